@@ -126,7 +126,7 @@ theorem imm_body_eq (neg : Bool) (s : List Char) (hplus : '+' ∉ s) :
     immBody neg s = (denoteBody neg s).bind fits32 := by
   unfold immBody denoteBody
   by_cases hz : (s == "zero".toList) = true
-  · rw [if_pos hz, if_pos hz]; rfl
+  · rw [if_pos hz, if_pos hz]; cases neg <;> rfl
   · rw [if_neg hz, if_neg hz]
     split
     · rename_i ds
